@@ -951,14 +951,29 @@ fn take_run<T: RunEndIndexType, I: ArrowPrimitiveType>(
     run_array: &RunArray<T>,
     logical_indices: &PrimitiveArray<I>,
 ) -> Result<RunArray<T>, ArrowError> {
-    // get physical indices for the input logical indices
-    let physical_indices = run_array.get_physical_indices(logical_indices.values())?;
+    // get physical indices for the input logical indices; a null index has none
+    // (the value stored under a null index is arbitrary and must not be looked up)
+    let physical_indices: Vec<Option<usize>> = if logical_indices.null_count() == 0 {
+        run_array
+            .get_physical_indices(logical_indices.values())?
+            .into_iter()
+            .map(Some)
+            .collect()
+    } else {
+        let valid_indices: Vec<I::Native> = logical_indices.iter().flatten().collect();
+        let mut physical = run_array
+            .get_physical_indices(&valid_indices)?
+            .into_iter();
+        (0..logical_indices.len())
+            .map(|i| logical_indices.is_valid(i).then(|| physical.next().unwrap()))
+            .collect()
+    };
 
     // Run encode the physical indices into new_run_ends
     // Keep track of the physical indices to take in take_value_indices
     // `unwrap` is used in this function because the unwrapped values are bounded by the corresponding `::Native`.
     let mut new_run_ends = Vec::with_capacity(1);
-    let mut take_value_indices = Vec::with_capacity(1);
+    let mut take_value_indices: Vec<Option<I::Native>> = Vec::with_capacity(1);
 
     let values_cmp = make_comparator(
         run_array.values().as_ref(),
@@ -966,17 +981,25 @@ fn take_run<T: RunEndIndexType, I: ArrowPrimitiveType>(
         SortOptions::default(),
     )?;
 
+    let to_value_index = |idx: Option<usize>| idx.map(|idx| I::Native::from_usize(idx).unwrap());
+
     for ix in 1..physical_indices.len() {
         let prev_idx = physical_indices[ix - 1];
         let cur_idx = physical_indices[ix];
-        let is_new_run = cur_idx != prev_idx && values_cmp(cur_idx, prev_idx).is_ne();
+        let is_new_run = match (cur_idx, prev_idx) {
+            (Some(cur_idx), Some(prev_idx)) => {
+                cur_idx != prev_idx && values_cmp(cur_idx, prev_idx).is_ne()
+            }
+            // consecutive null indices form one run of nulls
+            (None, None) => false,
+            _ => true,
+        };
         if is_new_run {
-            take_value_indices.push(I::Native::from_usize(prev_idx).unwrap());
+            take_value_indices.push(to_value_index(prev_idx));
             new_run_ends.push(T::Native::from_usize(ix).unwrap());
         }
     }
-    take_value_indices
-        .push(I::Native::from_usize(physical_indices[physical_indices.len() - 1]).unwrap());
+    take_value_indices.push(to_value_index(physical_indices[physical_indices.len() - 1]));
     new_run_ends.push(T::Native::from_usize(physical_indices.len()).unwrap());
 
     // SAFETY: run-ends are strictly increasing with last value == logical length.
@@ -984,7 +1007,8 @@ fn take_run<T: RunEndIndexType, I: ArrowPrimitiveType>(
         RunEndBuffer::new_unchecked(ScalarBuffer::from(new_run_ends), 0, physical_indices.len())
     };
 
-    let take_value_indices = PrimitiveArray::<I>::new(ScalarBuffer::from(take_value_indices), None);
+    // a null index takes a null value
+    let take_value_indices: PrimitiveArray<I> = take_value_indices.into_iter().collect();
 
     let new_values = take(run_array.values(), &take_value_indices, None)?;
 
@@ -1143,6 +1167,41 @@ mod tests {
     use arrow_data::ArrayData;
     use arrow_schema::{Field, Fields, TimeUnit, UnionFields};
     use num_traits::ToPrimitive;
+
+    #[test]
+    fn test_take_runs_null_indices() {
+        let run_ends = Int32Array::from(vec![2, 4, 6]);
+        let values = Int32Array::from(vec![Some(10), None, Some(30)]);
+        let run_array = RunArray::<Int32Type>::try_new(&run_ends, &values).unwrap();
+        let logical = |array: &dyn Array| -> Vec<Option<i32>> {
+            let typed = array.as_run::<Int32Type>();
+            let typed = typed.downcast::<Int32Array>().unwrap();
+            typed.into_iter().collect()
+        };
+
+        let indices = UInt32Array::from(vec![Some(0), None, None, Some(5), Some(2), None]);
+        let taken = take(&run_array, &indices, None).unwrap();
+        taken.to_data().validate_full().unwrap();
+        assert_eq!(
+            logical(taken.as_ref()),
+            vec![Some(10), None, None, Some(30), None, None]
+        );
+
+        // the value stored under a null index is arbitrary and must not be used
+        let indices = UInt32Array::new(
+            ScalarBuffer::from(vec![0, 999, 5]),
+            Some(NullBuffer::from(vec![true, false, true])),
+        );
+        let taken = take(&run_array, &indices, None).unwrap();
+        assert_eq!(logical(taken.as_ref()), vec![Some(10), None, Some(30)]);
+
+        // only null indices, also on an empty run array
+        let indices = UInt32Array::from(vec![None, None]);
+        let taken = take(&run_array, &indices, None).unwrap();
+        assert_eq!(logical(taken.as_ref()), vec![None, None]);
+        let taken = take(&run_array.slice(0, 0), &indices, None).unwrap();
+        assert_eq!(logical(taken.as_ref()), vec![None, None]);
+    }
 
     fn test_take_decimal_arrays(
         data: Vec<Option<i128>>,
